@@ -7,7 +7,11 @@ require github.com/samsarahq/thunder v0.0.0
 require (
 	github.com/gogo/protobuf v1.1.2-0.20180914054005-e14cafb6a2c2 // indirect
 	github.com/golang/protobuf v1.4.2 // indirect
+	github.com/gorilla/websocket v1.0.1-0.20161018003955-8003df83eef3 // indirect
+	github.com/graphql-go/graphql v0.4.19-0.20160928141709-8c317402d1b7 // indirect
+	github.com/samsarahq/go v0.0.0-20181026175739-13570df44b46 // indirect
 	golang.org/x/net v0.0.0-20211216030914-fe4d6282115f // indirect
+	golang.org/x/sync v0.0.0-20190423024810-112230192c58 // indirect
 	golang.org/x/sys v0.0.0-20210806184541-e5e7981a1069 // indirect
 	golang.org/x/text v0.3.7 // indirect
 	google.golang.org/genproto v0.0.0-20200526211855-cb27e3aa2013 // indirect
